@@ -2,6 +2,7 @@ import RedunModel.Proto
 import RedunModel.Model.EvalCore
 import RedunModel.Model.EvalLib
 import RedunModel.Model.CacheLookup
+import RedunModel.Model.SubrunModules
 open RedunModel RedunModel.EvalCore
 
 /-
@@ -15,6 +16,8 @@ request   (checkcache none|cse|backend full|shallow <b> <b> <b> <f> <f> <f>)    
 reply     cse|single|ultimate|miss N|T|F
 request   (getcache cse|single|ultimate|miss <b> <b>)   is-error, is-valid
 reply     hit | miss
+request   (ownmodule s<dotted module name>)              is it one of redun's own modules (not shipped by subrun)?
+reply     T | F
 request   (runscope <b> none|cse|backend)               run uses the cache?, scope asked for
 reply     none|cse|backend                               the scope the job's lookup is made with
 
@@ -278,6 +281,10 @@ def step (_ : Unit) (line : String) : Unit × String :=
   | some [.list (.atom "checkcache" :: rest)] =>
     match cacheOp (.atom "checkcache" :: rest) with
     | some r => ((), r)
+    | none => ((), "bad-value")
+  | some [.list [.atom "ownmodule", .atom m]] =>
+    match strOfAtom m with
+    | some name => ((), if RedunModel.SubrunModules.own (name.splitOn ".") then "T" else "F")
     | none => ((), "bad-value")
   | some [.list (.atom "runscope" :: rest)] =>
     match cacheOp (.atom "runscope" :: rest) with
